@@ -13,13 +13,13 @@ Matches == /\ last'.sent = E.sent /\ last'.closed = E.closed /\ last'.connects =
 Step(A) == /\ l <= Len(T.ev) /\ A /\ Matches /\ Inv' /\ ExactlyOnceStep /\ now' >= now
            /\ l' = l + 1 /\ UNCHANGED tid
 TNext == \/ (E.e = "lookup" /\ Step(Lookup(E.n)))
-         \/ (E.e = "reply" /\ Step(Reply(E.a, E.i, E.kind, E.rc, E.v)))
+         \/ (E.e = "reply" /\ Step(Reply(E.a, E.i, E.kind, E.rc, E.v, E.qn)))
          \/ (E.e = "advance" /\ Step(Advance(E.d)))
          \/ (E.e = "fire" /\ Step(Fire))
          \/ (E.e = "connup" /\ Step(ConnUp(E.c)))
          \/ (E.e = "connfail" /\ Step(ConnFail(E.c)))
          \/ (E.e = "connlost" /\ Step(ConnLost(E.c)))
-         \/ (E.e = "tcpreply" /\ Step(TcpReply(E.c, E.i, E.kind, E.rc, E.v)))
+         \/ (E.e = "tcpreply" /\ Step(TcpReply(E.c, E.i, E.kind, E.rc, E.v, E.qn)))
          \/ (E.e = "end" /\ Step(End))
 TSpec == TInit /\ [][l <= Len(T.ev) /\ TNext]_<<vars, tid, l>>
 Progress == TLCSet(tid, IF TLCGet(tid) > l THEN TLCGet(tid) ELSE l)
